@@ -76,7 +76,7 @@ example : ∃ s, Reach 0 s ∧ s.dirty = false ∧ Quiescent s ∧ s.cache = som
 changes the cache entry — and the last writer is `Shutdown`, which re-stores the state it read
 after the runnable's `Stop()` returned (repaired code, finding C06-F2). -/
 theorem c06_after_exit (s s' : St) (a : Act) (hm : s.mon = .exited) (h : step s a = some s')
-    (ha : ∀ k, a ≠ .wStore k) : s'.cache = s.cache ∧ s'.mon = .exited := by
+    (ha : ∀ k, a ≠ .wStore k ∧ a ≠ .wStoreB k) : s'.cache = s.cache ∧ s'.mon = .exited := by
   cases a <;> simp only [step, hm, subscribed] at h
   case change v =>
     split at h
@@ -88,13 +88,21 @@ theorem c06_after_exit (s s' : St) (a : Act) (hm : s.mon = .exited) (h : step s 
   case monRecv => simp at h
   case monExit => simp at h
   case wRead => simp at h; subst h; exact ⟨rfl, rfl⟩
-  case wStore k => exact absurd rfl (ha k)
+  case wStore k => exact absurd rfl (ha k).1
+  case wStoreB k => exact absurd rfl (ha k).2
   case otherBcast => simp at h; subst h; exact ⟨rfl, rfl⟩
   case cancel => simp at h; subst h; exact ⟨rfl, rfl⟩
 
 theorem c06_store_is_last_word (s s' : St) (k : Nat) (v : State) (hk : s.pend[k]? = some v)
     (h : step s (.wStore k) = some s') : s'.cache = some v := by
   simp [step, hk] at h; subst h; rfl
+
+/-- **(c), the post-reload store** (repaired code, finding C06-F3): when the reload manager's store changes the
+entry, the snapshot it broadcasts carries the new value — the entry never changes silently under a subscriber. -/
+theorem c06_reload_store_broadcasts (s s' : St) (k : Nat) (v : State) (hk : s.pend[k]? = some v)
+    (h : step s (.wStoreB k) = some s') : s'.cache = some v ∧ (s.cache ≠ some v → s'.snap = some v) := by
+  simp [step, hk] at h; subst h
+  exact ⟨rfl, fun hne => by simp [hne]⟩
 
 /-! ## (e) subscription channels -/
 open GoSup.SubProto in
